@@ -14,4 +14,5 @@ CONSTANTS
   POSS = {0}
   CKMS = {"generic"}
 INVARIANT Inv_C02
+INVARIANT Inv_C02_NuScaling
 CHECK_DEADLOCK FALSE
